@@ -15,7 +15,7 @@ Open Scope Z_scope.
 Ltac Zify.zify_post_hook ::= Z.div_mod_to_equations.
 
 Definition EStuck : Z := 102.       (* the machine model does not define the emitted sequence on this state *)
-Definition ENotModelled : Z := 103. (* call / tail call *)
+Definition ENotModelled : Z := 103. (* local call / tail call *)
 
 (** x86 register holding eBPF register k *)
 Definition ez (k : Z) : Z := nth (Z.to_nat k) gen_register_map 0.
@@ -32,7 +32,7 @@ Fixpoint xpre (l : list xi) (R : regs) : option regs :=
 
 Inductive jres := JNext (R : regs) (pc : Z) (m : mem) | JRet (r : Z) (m : mem).
 
-Definition jit_exec (E : ienv) (i : insn) (next : Z) (R : regs) (m : mem) : res jres :=
+Definition jit_exec (g : Z -> Z) (E : ienv) (i : insn) (next : Z) (R : regs) (m : mem) : res jres :=
   let o := opc i in
   let d := ez (dst i) in
   let s := ez (src i) in
@@ -65,6 +65,26 @@ Definition jit_exec (E : ienv) (i : insn) (next : Z) (R : regs) (m : mem) : res 
       else Ok (JNext (norm64 Rp) next (mstore m (x_addr a) n ((mload m (x_addr a) n + x_val a) mod 2 ^ (8 * n))))
     | _, _ => Err EStuck
     end
+  else if o =? op_call then
+    (* a helper call: mov rcx <- r9, push r10 twice, call, pop r10 twice.  The helper returns its value in rax, keeps the
+       callee-saved registers of the System V ABI, and leaves [g r] -- anything -- in every other register r *)
+    if src i =? 0 then
+      match e_helpers E (gen_jit_call_key i) with
+      | Some f =>
+        match run_seq gen_jit_call_pre R [] with
+        | Some (XFall s1) =>
+          let R1 := x_r s1 in
+          let R2 : regs := fun r => if r =? 0 then f (R1 7) (R1 6) (R1 2) (R1 1) (R1 8)
+                                    else if inl r sysv_callee_saved then R1 r else g r in
+          match srun 3 gen_jit_call_post {| x_r := R2; x_stk := x_stk s1; x_fl := None |} with
+          | Some (XFall s3) => Ok (JNext (norm64 (x_r s3)) next m)
+          | _ => Err EStuck
+          end
+        | _ => Err EStuck
+        end
+      | None => Err ENotCompiled
+      end
+    else Err ENotModelled                              (* local call: known finding D18 *)
   else if o =? op_exit then Ok (JRet (R 0) m)        (* the epilogue leaves rax alone (C03_epilogue) *)
   else Err ENotModelled.
 
@@ -139,6 +159,7 @@ Qed.
 
 (** ** ALU *)
 Section Sim.
+Variable g : Z -> Z.
 Variable E : ienv.
 Variables (i : insn) (reg : list Z) (R : regs) (next : Z) (m : mem).
 Hypothesis Hr : regs_ok reg.
@@ -153,7 +174,7 @@ Let Rs : R (ez (src i)) = rd reg (src i). Proof. exact (proj2 Hrel _ Hs). Qed.
 Lemma jit_alu_sim : In (opc i) jit_alu_ops ->
   let v := newval (isa_alu_value (opc i) i (rd reg (dst i)) (rd reg (src i))) (rd reg (dst i)) in
   0 <= v < 2 ^ 64 ->
-  exists R', jit_exec E i next R m = Ok (JNext R' next m) /\ jrel (set_reg reg (dst i) v) R' /\ R' 10 = R 10.
+  exists R', jit_exec g E i next R m = Ok (JNext R' next m) /\ jrel (set_reg reg (dst i) v) R' /\ R' 10 = R 10.
 Proof.
   intros Hin v Hv. destruct Hwf as (_ & _ & _ & _ & Hi). destruct (ez_facts _ Hd) as (_ & D1 & _).
   pose proof (proj1 (Forall_forall _ _) (jit_alu_arms i R (ez (dst i)) (ez (src i)) (proj1 Hrel) D1 Hi) _ Hin) as (R' & Hrun & Hval & Hoth).
@@ -169,7 +190,7 @@ Proof. vm_compute. reflexivity. Qed.
 Lemma jit_muldiv_sim : In (opc i) gen_jit_muldiv_ops ->
   let v := newval (isa_alu_value (opc i) i (rd reg (dst i)) (rd reg (src i))) (rd reg (dst i)) in
   0 <= v < 2 ^ 64 ->
-  exists R', jit_exec E i next R m = Ok (JNext R' next m) /\ jrel (set_reg reg (dst i) v) R' /\ R' 10 = R 10.
+  exists R', jit_exec g E i next R m = Ok (JNext R' next m) /\ jrel (set_reg reg (dst i) v) R' /\ R' 10 = R 10.
 Proof.
   intros Hin v Hv. destruct Hwf as (_ & _ & _ & _ & Hi).
   destruct (ez_facts _ Hd) as (D0 & D1 & D4 & _). destruct (ez_facts _ Hs) as (_ & S1 & _).
@@ -198,7 +219,7 @@ Proof. vm_compute. repeat split. Qed.
 Lemma jit_endian_sim : opc i = op_le \/ opc i = op_be -> In (imm i) [16; 32; 64] ->
   let v := isa_endian_value (opc i =? op_be) (imm i) (rd reg (dst i)) in
   0 <= v < 2 ^ 64 ->
-  exists R', jit_exec E i next R m = Ok (JNext R' next m) /\ jrel (set_reg reg (dst i) v) R' /\ R' 10 = R 10.
+  exists R', jit_exec g E i next R m = Ok (JNext R' next m) /\ jrel (set_reg reg (dst i) v) R' /\ R' 10 = R 10.
 Proof.
   intros Ho Hw v Hv. destruct endian_not_alu_ops as (A1 & A2 & A3 & A4).
   destruct (jit_endian_arms (opc i =? op_be) (imm i) R [] (ez (dst i)) Hw (proj1 Hrel)) as (R' & fl & Hrun & Hval & Hoth).
@@ -213,7 +234,7 @@ Qed.
 
 Lemma jit_lddw_sim : opc i = op_lddw -> wf_insn (insn_at (e_prog E) next) ->
   let v := u64 (u32 (imm i) + u32 (imm (insn_at (e_prog E) next)) * 2 ^ 32) in
-  exists R', jit_exec E i next R m = Ok (JNext R' (next + 1) m) /\ jrel (set_reg reg (dst i) v) R' /\ R' 10 = R 10.
+  exists R', jit_exec g E i next R m = Ok (JNext R' (next + 1) m) /\ jrel (set_reg reg (dst i) v) R' /\ R' 10 = R 10.
 Proof.
   intros Ho (_ & _ & _ & _ & Hi2) v. destruct Hwf as (_ & _ & _ & _ & Hi).
   destruct (jit_lddw_arm (imm i) (imm (insn_at (e_prog E) next)) R [] (ez (dst i)) Hi Hi2) as (v0 & Hv0 & R' & fl & Hrun & Hval & Hoth).
@@ -226,24 +247,24 @@ Proof.
   - intros r N1 _ _. now apply Hoth.
 Qed.
 
-Lemma jit_ja_sim : opc i = op_ja -> jit_exec E i next R m = Ok (JNext R (next + off i) m).
+Lemma jit_ja_sim : opc i = op_ja -> jit_exec g E i next R m = Ok (JNext R (next + off i) m).
 Proof.
   intros Ho. unfold jit_exec. cbv zeta. rewrite Ho.
   change (inl op_ja jit_alu_ops) with false. change (inl op_ja gen_jit_muldiv_ops) with false.
   change ((op_ja =? op_le) || (op_ja =? op_be)) with false. change (op_ja =? op_lddw) with false. change (op_ja =? op_ja) with true. reflexivity.
 Qed.
 
-Lemma jit_exit_sim : opc i = op_exit -> jit_exec E i next R m = Ok (JRet (rd reg 0) m).
+Lemma jit_exit_sim : opc i = op_exit -> jit_exec g E i next R m = Ok (JRet (rd reg 0) m).
 Proof.
   intros Ho. unfold jit_exec. cbv zeta. rewrite Ho.
   change (inl op_exit jit_alu_ops) with false. change (inl op_exit gen_jit_muldiv_ops) with false.
   change ((op_exit =? op_le) || (op_exit =? op_be)) with false. change (op_exit =? op_lddw) with false. change (op_exit =? op_ja) with false.
-  change (inl op_exit cl_jmp_ops) with false. change (inl op_exit cl_mem_ops) with false. change (op_exit =? op_exit) with true. cbv iota.
+  change (inl op_exit cl_jmp_ops) with false. change (inl op_exit cl_mem_ops) with false. change (op_exit =? op_call) with false. change (op_exit =? op_exit) with true. cbv iota.
   rewrite <- (proj2 Hrel 0) by lia. reflexivity.
 Qed.
 
 Lemma jit_jmp_sim : In (opc i) cl_jmp_ops ->
-  jit_exec E i next R m
+  jit_exec g E i next R m
   = Ok (JNext R (if isa_jump_taken (opc i) i (rd reg (dst i)) (rd reg (src i)) then next + off i else next) m).
 Proof.
   intros Hin.
@@ -262,7 +283,7 @@ Qed.
 Lemma jit_mem_sim fidx stacks reg' pc' fidx' stacks' m' :
   In (opc i) cl_mem_ops -> mem_ok m -> R 10 = e_mem_base E -> (opc i mod 8 = 0 -> 0 <= imm i) ->
   isa_exec E i reg next fidx stacks m = Ok (SNext (reg', pc', fidx', stacks', m')) -> regs_ok reg' ->
-  exists R', jit_exec E i next R m = Ok (JNext R' pc' m') /\ jrel reg' R' /\ R' 10 = R 10.
+  exists R', jit_exec g E i next R m = Ok (JNext R' pc' m') /\ jrel reg' R' /\ R' 10 = R 10.
 Proof.
   intros Hin Hm H10 Himm H Hr'. destruct Hwf as (_ & _ & _ & Hoff & Hi).
   pose proof (proj1 (forallb_forall _ _) mem_ops_class _ Hin) as C.
@@ -330,7 +351,7 @@ Proof.
 Qed.
 
 (** ** one instruction: every accepted opcode but the calls *)
-Theorem jit_exec_simulates E i reg R next fidx stacks m st :
+Theorem jit_exec_simulates g E i reg R next fidx stacks m st :
   regs_ok reg -> jrel reg R -> R 10 = e_mem_base E -> mem_ok m ->
   wf_insn i -> 0 <= dst i <= 10 -> 0 <= src i <= 10 -> In (opc i) cl_ops -> opc i <> op_call ->
   ((opc i =? op_le) || (opc i =? op_be) = true -> In (imm i) [16; 32; 64]) ->
@@ -340,8 +361,8 @@ Theorem jit_exec_simulates E i reg R next fidx stacks m st :
   isa_exec E i reg next fidx stacks m = Ok st ->
   match st with
   | SNext (reg', pc', _, _, m') =>
-      regs_ok reg' -> exists R', jit_exec E i next R m = Ok (JNext R' pc' m') /\ jrel reg' R' /\ R' 10 = R 10
-  | SRet r m' => jit_exec E i next R m = Ok (JRet r m')
+      regs_ok reg' -> exists R', jit_exec g E i next R m = Ok (JNext R' pc' m') /\ jrel reg' R' /\ R' 10 = R 10
+  | SRet r m' => jit_exec g E i next R m = Ok (JRet r m')
   end.
 Proof.
   intros Hr Hrel H10 Hm Hwf Hd Hs Hin Ncall Hend Hld Hexit Himm H.
@@ -366,7 +387,7 @@ Proof.
   apply in_app_or in Hin as [Hin|Hin].
   { (* memory *)
     destruct st as [[[[[reg' pc'] fidx'] stacks'] m']|r m'].
-    - intros Hr'. now apply (jit_mem_sim E i reg R next m Hr Hrel Hwf Hd Hs fidx stacks reg' pc' fidx' stacks' m').
+    - intros Hr'. now apply (jit_mem_sim g E i reg R next m Hr Hrel Hwf Hd Hs fidx stacks reg' pc' fidx' stacks' m').
     - exfalso. pose proof (proj1 (forallb_forall _ _) mem_ops_class _ Hin) as C.
       apply andb_true_iff in C as [C Cx]. apply andb_true_iff in C as [C Nl]. apply andb_true_iff in C as [C0 C3].
       apply Z.leb_le in C0, C3. apply negb_true_iff, Z.eqb_neq in Nl.
@@ -382,7 +403,7 @@ Proof.
     injection H as <-. intros Hr'.
     assert (Hv : 0 <= to_little (imm i) (rd reg (dst i)) < 2 ^ 64).
     { pose proof (rd_range _ (dst i) Hr') as Rg. now rewrite rd_set_same in Rg by assumption. }
-    pose proof (jit_endian_sim E i reg R next m Hr Hrel Hd (or_introl Ho) Hw) as S. rewrite Ho in S.
+    pose proof (jit_endian_sim g E i reg R next m Hr Hrel Hd (or_introl Ho) Hw) as S. rewrite Ho in S.
     change (op_le =? op_be) with false in S. exact (S Hv).
   - (* be *)
     assert (Hw : In (imm i) [16; 32; 64]) by (apply Hend; rewrite Ho; reflexivity).
@@ -392,7 +413,7 @@ Proof.
     injection H as <-. intros Hr'.
     assert (Hv : 0 <= to_big (imm i) (rd reg (dst i)) < 2 ^ 64).
     { pose proof (rd_range _ (dst i) Hr') as Rg. now rewrite rd_set_same in Rg by assumption. }
-    pose proof (jit_endian_sim E i reg R next m Hr Hrel Hd (or_intror Ho) Hw) as S. rewrite Ho in S.
+    pose proof (jit_endian_sim g E i reg R next m Hr Hrel Hd (or_intror Ho) Hw) as S. rewrite Ho in S.
     change (op_be =? op_be) with true in S. exact (S Hv).
   - (* lddw *)
     unfold isa_exec, isa_exec_dec in H. rewrite Ho in H.
@@ -410,5 +431,73 @@ Proof.
     change ((op_exit mod 8 =? 7) || (op_exit mod 8 =? 4)) with false in H. change ((op_exit mod 8 =? 5) || (op_exit mod 8 =? 6)) with true in H.
     change (op_exit =? op_ja) with false in H. change (op_exit =? op_call) with false in H. change (op_exit =? op_tail_call) with false in H.
     change (op_exit =? op_exit) with true in H. change (0 <? 0) with false in H. cbv iota in H. injection H as <-.
-    now apply (jit_exit_sim E i reg R next m Hrel).
+    now apply (jit_exit_sim g E i reg R next m Hrel).
+Qed.
+
+(** ** helper calls.  The helper's value goes to r0; r6-r10 come back; r1-r5 are whatever the helper left in their
+    (caller-saved) x86 registers: [clobber g] writes that garbage into the eBPF view, so that the statement says exactly
+    which registers are undefined after a call *)
+Definition clobber (g : Z -> Z) (reg : list Z) : list Z :=
+  set_reg (set_reg (set_reg (set_reg (set_reg reg 1 (g (ez 1) mod 2 ^ 64)) 2 (g (ez 2) mod 2 ^ 64)) 3 (g (ez 3) mod 2 ^ 64))
+            4 (g (ez 4) mod 2 ^ 64)) 5 (g (ez 5) mod 2 ^ 64).
+
+Lemma set_reg_ok reg k v : regs_ok reg -> 0 <= v < 2 ^ 64 -> regs_ok (set_reg reg k v).
+Proof. intros. unfold set_reg. now apply upd_regs_ok. Qed.
+Lemma mod64_range v : 0 <= v mod 2 ^ 64 < 2 ^ 64.
+Proof. apply Z.mod_pos_bound. change (2 ^ 64) with 18446744073709551616. lia. Qed.
+
+Lemma clobber_ok g reg : regs_ok reg -> regs_ok (clobber g reg).
+Proof. intros H. unfold clobber. repeat apply set_reg_ok; try apply mod64_range. exact H. Qed.
+
+Lemma rd_clobber g reg k : regs_ok reg -> 0 <= k <= 10 ->
+  rd (clobber g reg) k = if (1 <=? k) && (k <=? 5) then g (ez k) mod 2 ^ 64 else rd reg k.
+Proof.
+  intros Hr Hk. unfold clobber.
+  assert (O1 := set_reg_ok reg 1 _ Hr (mod64_range (g (ez 1)))).
+  assert (O2 := set_reg_ok _ 2 _ O1 (mod64_range (g (ez 2)))).
+  assert (O3 := set_reg_ok _ 3 _ O2 (mod64_range (g (ez 3)))).
+  assert (O4 := set_reg_ok _ 4 _ O3 (mod64_range (g (ez 4)))).
+  assert (C : k = 0 \/ k = 1 \/ k = 2 \/ k = 3 \/ k = 4 \/ k = 5 \/ k = 6 \/ k = 7 \/ k = 8 \/ k = 9 \/ k = 10) by lia.
+  destruct C as [->|[->|[->|[->|[->|[->|[->|[->|[->|[->| ->]]]]]]]]]]; cbn [Z.leb Z.compare Pos.compare Pos.compare_cont andb];
+    repeat first [ rewrite rd_set_same by (assumption || lia) | rewrite rd_set_other by lia ]; reflexivity.
+Qed.
+
+Lemma jit_call_sim g E i reg R next m f : regs_ok reg -> jrel reg R -> env_ok E -> wf_insn i ->
+  opc i = op_call -> src i = 0 -> e_helpers E (u32 (imm i)) = Some f ->
+  exists R', jit_exec g E i next R m = Ok (JNext R' next m) /\
+    jrel (clobber g (set_reg reg 0 (f (rd reg 1) (rd reg 2) (rd reg 3) (rd reg 4) (rd reg 5)))) R' /\ R' 10 = R 10.
+Proof.
+  intros Hr [HR Hm] He (_ & _ & _ & _ & Hi) Ho Hs Hf.
+  assert (Hv : 0 <= f (rd reg 1) (rd reg 2) (rd reg 3) (rd reg 4) (rd reg 5) < 2 ^ 64) by (eapply (eo_helpers E He); exact Hf).
+  unfold jit_exec. cbv zeta. rewrite Ho, Hs.
+  change (inl op_call jit_alu_ops) with false. change (inl op_call gen_jit_muldiv_ops) with false.
+  change ((op_call =? op_le) || (op_call =? op_be)) with false. change (op_call =? op_lddw) with false. change (op_call =? op_ja) with false.
+  change (inl op_call cl_jmp_ops) with false. change (inl op_call cl_mem_ops) with false. change (op_call =? op_call) with true.
+  change (0 =? 0) with true. cbv iota.
+  rewrite (proj1 (jit_call_key i)), Hf.
+  unfold gen_jit_call_pre, gen_jit_call_post, run_seq. cbn [length].
+  rewrite srun_mov, srun_push, srun_push, srun_nil. cbn [x_r x_stk x_fl].
+  erewrite srun_pop by reflexivity. cbn [x_r x_stk x_fl]. erewrite srun_pop by reflexivity. cbn [x_r x_stk x_fl]. rewrite srun_nil.
+  cbn [x_r]. eexists. split; [reflexivity|].
+  pose proof (Hm 1 ltac:(lia)) as E1. pose proof (Hm 2 ltac:(lia)) as E2. pose proof (Hm 3 ltac:(lia)) as E3.
+  pose proof (Hm 4 ltac:(lia)) as E4. pose proof (Hm 5 ltac:(lia)) as E5.
+  change (ez 1) with 7 in E1. change (ez 2) with 6 in E2. change (ez 3) with 2 in E3. change (ez 4) with 9 in E4. change (ez 5) with 8 in E5.
+  assert (Hr0 : regs_ok (set_reg reg 0 (f (rd reg 1) (rd reg 2) (rd reg 3) (rd reg 4) (rd reg 5)))) by (now apply set_reg_ok).
+  split; [split|].
+  - intros r. apply norm64_range.
+  - intros k Hk. rewrite rd_clobber by assumption.
+    assert (C : k = 0 \/ k = 1 \/ k = 2 \/ k = 3 \/ k = 4 \/ k = 5 \/ k = 6 \/ k = 7 \/ k = 8 \/ k = 9 \/ k = 10) by lia.
+    destruct C as [->|[->|[->|[->|[->|[->|[->|[->|[->|[->| ->]]]]]]]]]];
+      cbn [Z.leb Z.compare Pos.compare Pos.compare_cont andb]; unfold norm64;
+      match goal with |- context [ez ?n] => let v := eval vm_compute in (ez n) in change (ez n) with v end;
+      rewrite ?rset_same; rewrite ?rset_other by lia; cbn [Z.eqb Pos.eqb inl existsb sysv_callee_saved orb];
+      rewrite ?rset_same; rewrite ?rset_other by lia; try reflexivity.
+    + (* r0 *) rewrite rd_set_same by (assumption || lia).
+      rewrite !(Z.mod_small (R 9)) by apply HR. rewrite E1, E2, E3, E4, E5. now apply Z.mod_small.
+    + rewrite rd_set_other by lia. rewrite <- (Hm 6) by lia. apply Z.mod_small, HR.
+    + rewrite rd_set_other by lia. rewrite <- (Hm 7) by lia. apply Z.mod_small, HR.
+    + rewrite rd_set_other by lia. rewrite <- (Hm 8) by lia. apply Z.mod_small, HR.
+    + rewrite rd_set_other by lia. rewrite <- (Hm 9) by lia. apply Z.mod_small, HR.
+    + rewrite rd_set_other by lia. rewrite <- (Hm 10) by lia. apply Z.mod_small, HR.
+  - unfold norm64. rewrite rset_same. apply Z.mod_small, HR.
 Qed.
